@@ -755,11 +755,11 @@ func caseClasses(c *Case, ref [][]*big.Int, p *big.Int, order []int) []string {
 
 // ---- generator -------------------------------------------------------------------
 
-func genCase(curves []string, maxLogN int) *rapid.Generator[Case] {
+func genCase(curves []string, minLogN, maxLogN int) *rapid.Generator[Case] {
 	return rapid.Custom(func(rt *rapid.T) Case {
 		var c Case
 		c.Curve = rapid.SampledFrom(curves).Draw(rt, "curve")
-		c.Topo = genTopo(c.Curve == "bls12-377", maxLogN).Draw(rt, "topo")
+		c.Topo = genTopo(c.Curve == "bls12-377", minLogN, maxLogN).Draw(rt, "topo")
 		c.HashA = rapid.SampledFrom([]string{hashMimc, hashMimc, hashConst}).Draw(rt, "hash_a")
 		c.ChalA = rapid.SampledFrom([]string{"commit", "commit", "io", "none"}).Draw(rt, "chal_a")
 		if c.Topo.LogN >= 4 && c.ChalA == "io" && c.HashA == hashMimc {
@@ -792,11 +792,11 @@ func genCase(curves []string, maxLogN int) *rapid.Generator[Case] {
 
 const rule = "rapid-generated GKR topologies (1-6 gates from add/mul/neg/sub, on bls12-377 also the natively registered custom gates pow2/pow2Times/pow4/pow4Times/3-input linear; 1-3 imported inputs, fan-out, repeated operands, Series dependencies none/some/chain under a hidden random instance order, 2^k instances, inputs incl. 0, 1, p-1). Per case: circuit A (exports == direct in-circuit evaluation) compiled+solved on R1CS and SCS and run in the test engine; circuit B (exports == public inputs) solved honestly, then with GkrInfo detached under 4 adversarial wrappings of the genuine solve/prove hints (outputs altered, inputs altered, honest outputs with a proof of another statement, proof element altered, initial challenge altered) with the real MiMC Fiat-Shamir hash: every effective alteration must be unsatisfiable. Non-trivial: (>=2 instances and >=1 gate of degree >=2) or a Series dependency. Distinct: SHA-256 of the case JSON."
 
-func check(t *testing.T, kind string, curves []string, maxLogN, nQuick, nThorough int) {
+func check(t *testing.T, kind string, curves []string, minLogN, maxLogN, nQuick, nThorough int) {
 	rec := ev.Get(ID)
 	rec.SetRule(rule)
 	rec.Assume("MiMC as Fiat-Shamir hash makes the probability that an altered output/proof is accepted negligible (<= poly/p)")
-	g := genCase(curves, maxLogN)
+	g := genCase(curves, minLogN, maxLogN)
 	rec.Check(t, kind, ev.N(nQuick, nThorough), func(rt *rapid.T) {
 		c := g.Draw(rt, "case")
 		o, harness := run(c)
@@ -808,14 +808,15 @@ func check(t *testing.T, kind string, curves []string, maxLogN, nQuick, nThoroug
 	})
 }
 
-var allCurves = []string{"bn254", "bls12-377", "bls12-381", "bls24-315", "bls24-317", "bw6-633", "bw6-761"}
+// bls12-377 twice: the only curve with natively registered custom gates
+var allCurves = []string{"bn254", "bls12-377", "bls12-381", "bls24-315", "bls12-377", "bls24-317", "bw6-633", "bw6-761"}
 
 func TestGkrSmall(t *testing.T) {
 	curves := []string{"bn254", "bls12-377"}
 	if ev.Tier() == "thorough" {
 		curves = allCurves
 	}
-	check(t, "gkr", curves, 3, 60, 3200)
+	check(t, "gkr", curves, 1, 3, 60, 3200)
 }
 
 func TestGkrLarge(t *testing.T) {
@@ -823,7 +824,34 @@ func TestGkrLarge(t *testing.T) {
 	if ev.Tier() == "thorough" {
 		curves = allCurves
 	}
-	check(t, "gkr-large", curves, 5, 20, 800)
+	check(t, "gkr-large", curves, 3, 5, 20, 800)
+}
+
+// TestRegressions runs the minimal inputs of the two defects this check found on the tree it was
+// written against (both fixed since) through the full oracle.
+func TestRegressions(t *testing.T) {
+	rec := ev.Get(ID)
+	rec.SetRule(rule)
+	forg := []Forgery{{Kind: "out-one", Idx: 1, Delta: "1"}, {Kind: "in-one", Idx: 2, Delta: "-1"}, {Kind: "in-keepout", Idx: 0, Delta: "5"}, {Kind: "proof-one", Idx: 3, Delta: "1"}, {Kind: "chal", Idx: 0, Delta: "1"}}
+	cases := []Case{
+		// Export applied the instance permutation instead of its inverse (sorted order 1,2,0,3 is not an involution)
+		{Curve: "bn254", HashA: hashConst, ChalA: "none", BuilderB: prog.SCS, ChalB: "commit", Forgeries: forg,
+			Topo: Topo{LogN: 2, Wires: []Wire{{}, {Gate: "add", In: []int{0, 0}}, {}, {Gate: "add", In: []int{2, 2}}},
+				Deps: []Dep{{InWire: 2, InInst: 0, OutWire: 3, OutInst: 2}, {InWire: 2, InInst: 2, OutWire: 3, OutInst: 1}},
+				Vals: [][]string{{"10", "20", "30", "40"}, nil, {"", "5", "", "7"}, nil}}},
+		// the solve hint's binary search never terminated: two input wires with dependencies at different instances
+		{Curve: "bls12-377", HashA: hashMimc, ChalA: "commit", BuilderB: prog.R1CS, ChalB: "io", Forgeries: forg,
+			Topo: Topo{LogN: 2, Wires: []Wire{{}, {}, {Gate: "mul", In: []int{0, 1}}},
+				Deps: []Dep{{InWire: 0, InInst: 1, OutWire: 2, OutInst: 0}, {InWire: 1, InInst: 2, OutWire: 2, OutInst: 1}},
+				Vals: [][]string{{"2", "", "3", "4"}, {"5", "6", "", "7"}, nil}}},
+	}
+	for _, c := range cases {
+		o, harness := run(c)
+		if harness != "" {
+			t.Fatalf("HARNESS ERROR (not a property violation): %s", harness)
+		}
+		rec.Report(t, "gkr", c, o)
+	}
 }
 
 func TestReplay(t *testing.T) { ev.Replay(t) }
